@@ -82,13 +82,13 @@ theorem retry_cancelled_during_delay (pos : Nat) (m : Int) (rl : Bool) (h a : Li
     (hf : isFailure h res1.outcome = true) (hd : (retryOnFailure pos m rl a res1.withFailure r1).1.done = false)
     (X : Run)
     (hX : X = (({ (retryOnFailure pos m rl a res1.withFailure r1).2 with
-              last := (retryOnFailure pos m rl a res1.withFailure r1).1.outcome }).emit "rp.onRetryScheduled" pos).trigger "rp.onRetryScheduled")
+              last := (retryOnFailure pos m rl a res1.withFailure r1).1.outcome }).emitLast "rp.onRetryScheduled" pos).trigger "rp.onRetryScheduled")
     (hx : X.isCanc = true) :
     retryLoop pos m rl h a inner (fuel + 1) r = some (X.cancelRes, X) ∧
     X.attempts = (retryOnFailure pos m rl a res1.withFailure r1).2.attempts ∧
     X.retries = (retryOnFailure pos m rl a res1.withFailure r1).2.retries := by
   subst hX
-  refine ⟨?_, by simp [Run.emit], by simp [Run.emit]⟩
+  refine ⟨?_, by simp [Run.emitLast, Run.emitSeen], by simp [Run.emitLast, Run.emitSeen]⟩
   simp only [retryLoop, hi, hc, he, hf, hd, Bool.false_eq_true, if_false, if_true]
   simp only [hx, if_true]
 
